@@ -354,6 +354,7 @@ def run(ctx):
     # ---- C13.i the timeout a run is judged by is the configured one: the execution config handed to each equalizer is not rewritten per
     # category (shared with C19.a)
     _cm13.import_clauses(ctx, res, 'C19', ['C19.a'], 'C13', 'C13.i', 'R-PROV', 'equalizer arguments derive from this call (no shared object rewritten per category)', floor=4)
+    _cm13.import_clauses(ctx, res, 'C08', ['C08.a'], 'C13', 'C13.k', 'R-TYPESTATE', 'the run goes on after a lost worker: every id still gets its comparison', floor=3)
     return res
 
 
